@@ -274,11 +274,16 @@ class Report:
         known_printed = set()
         replayed = 0
         # group: one replay per distinct (known id) for known findings, every new one individually
+        max_new = int(os.environ.get("VERIF_MAX_REPLAYS", "12"))
+        skipped = 0
         for f in self.findings:
             spec = f["replay"]
             spec["property"] = pid
             kid = f.get("known")
             if kid is not None and kid in known_printed:
+                continue
+            if kid is None and violations >= max_new:
+                skipped += 1            # enough counterexamples replayed; the rest are counted only
                 continue
             path = write_replay(pid, spec)
             ok, text = run_replay(path)
@@ -299,6 +304,8 @@ class Report:
             else:
                 harness_err = True
                 self.errors.append("model did not replay (%s): %s :: %s" % (f.get("what"), path, text.strip()[-400:]))
+        if skipped:
+            print("(%d further findings not replayed after the first %d reproduced violations)" % (skipped, max_new))
         for msg in self.inconclusive[:20]:
             print("INCONCLUSIVE property=%s %s" % (pid, msg))
         for e in self.errors[:20]:
